@@ -24,7 +24,7 @@ func init() {
 		Rule: "part A: one real channel (recording transport, empty user pipeline) per case; message = carrier(content) for every carrier type accepted by the head handler " +
 			"([]byte, [][]byte, *bytes.Buffer, stdlib and custom io.WriterTo incl. buffer-reusing ones, io.Reader with 10 delivery behaviours) x size palette (0,1,chunk edges 1023/1024/1025, pool classes, 65537, 200000, jittered in thorough) " +
 			"x {sync, queued q=1,8,64}; oracle wire == content after sender quiescence; 23 unsupported values must give exactly one exception and an empty wire; random mixed sequences check order. " +
-			"part B: ToReader/MustToReader/ToBytes/MustToBytes/StealBytes/ByteStealer/CountOf against the reference content for every carrier x size, error/panic for unsupported values; " +
+			"part B: ToReader/MustToReader/ToBytes/MustToBytes/StealBytes/ByteStealer/CountOf against the reference content for every carrier x size, error/panic for unsupported values, and []byte / [][]byte inputs still carry their content afterwards; " +
 			"NewByteReader(...).ReadByte judged call by call against the io.ByteReader contract (also through binary.ReadUvarint and mixed with Read). " +
 			"distinct_nontrivial = distinct (part, function, carrier, behaviour, size class, channel mode)",
 		Assumptions: []string{
